@@ -254,5 +254,5 @@ func TestC16_Random(t *testing.T) {
 	rec := evid.New("C16", "c16_random", "rapid: runs of 1..450 decodes of strings/binaries through Binary.ReadString/ReadBinary and BufferReader.ReadString/ReadBinary (bytes-backed and stream-backed), lengths from every span-allocator class (0, 1..127, 128..255, ... 64Ki..128Ki-1, >=128Ki) incl. long runs in one class that wrap the 1 MiB span; after each decode the whole input buffer is overwritten and reused; afterwards every returned byte slice is appended to and overwritten one at a time while all other values are re-verified; each case runs with the span cache disabled and enabled and the two result lists must be equal; non-trivial = a run wrapping a span or mixing >= 3 size classes")
 	defer rec.Flush()
 	rec.Assume("the span-cache switch is a process global; it is flipped only between runs inside one goroutine, never concurrently")
-	runRapid(t, rec, "c16_independence", evid.Pick(1000, 2500), genIndepCase, checkIndep)
+	runRapid(t, rec, "c16_independence", evid.Pick(1000, 6000), genIndepCase, checkIndep)
 }
